@@ -1137,6 +1137,7 @@ const (
 	fTruncInReady                         // ... and inside the index range of the held Ready's Entries (the slots the application is about to persist)
 	fPersistRelease                       // persist lag: a held Ready was released (persist(n))
 	fCrashHeldWhole                       // persist lag: crash of a node holding an unpersisted Ready (lost entirely)
+	fSnapHeldWhole                        // persist lag: the Ready that is now held carries a snapshot (MsgSnap accepted, nothing installed yet)
 	fFlags             = iota
 )
 
@@ -1150,7 +1151,7 @@ var flagNames = [...]string{"two_live_leaders_in_different_terms", "conflict_tru
 	"readys_held_before_persisting", "inputs_stepped_while_an_unpersisted_ready_was_held", "msgapps_that_truncated_unstable_entries_while_an_unpersisted_ready_was_held",
 	"msgapps_that_truncated_in_the_middle_of_the_unstable_entries_while_an_unpersisted_ready_was_held",
 	"msgapps_that_truncated_inside_the_entries_of_the_held_unpersisted_ready",
-	"unpersisted_readys_released", "crashes_while_an_unpersisted_ready_was_held"}
+	"unpersisted_readys_released", "crashes_while_an_unpersisted_ready_was_held", "readys_with_a_snapshot_held_before_persisting"}
 
 // compile-time check: one name per flag
 var _ = [1]struct{}{}[len(flagNames)-fFlags]
@@ -1585,6 +1586,9 @@ func (c *cluster) absorb(n, before *node, e Event) {
 	}
 	if eff.heldNew {
 		c.flags |= fReadyHeldWhole
+		if n.heldWhole && n.heldSnapIdx > 0 {
+			c.flags |= fSnapHeldWhole
+		}
 	}
 	if eff.released > 0 {
 		c.flags |= fPersistRelease
